@@ -874,10 +874,17 @@ func (n *IncludeNode) Render(w io.Writer, ctx *RenderContext) error {
 			// Only mode - create empty context
 			contextVars = make(map[string]interface{}, len(n.variables))
 		} else {
-			// For sandboxed mode but not 'only' mode, copy the parent context
+			// For sandboxed mode but not 'only' mode, copy every variable the including
+			// context can read: its own and those of its parent contexts (the context of an
+			// include or of a macro call keeps inherited variables in its parents, not in
+			// its own map); the nearest definition of a name wins
 			contextVars = make(map[string]interface{}, len(ctx.context)+len(n.variables))
-			for k, v := range ctx.context {
-				contextVars[k] = v
+			for c := ctx; c != nil; c = c.parent {
+				for k, v := range c.context {
+					if _, ok := contextVars[k]; !ok {
+						contextVars[k] = v
+					}
+				}
 			}
 		}
 
